@@ -1,6 +1,7 @@
 package main
 
 import (
+	"crypto/md5"
 	"crypto/rand"
 	"fmt"
 	"io"
@@ -106,6 +107,15 @@ func init() {
 				b := append([]byte(nil), q...)
 				b[0] = byte(code)
 				addReq(b, sec, "isreq-other-code")
+				// the same code carrying a correct request-style digest (MD5 over the datagram with a zero
+				// authenticator field and the secret): still not a request code, so still not authentic
+				h := md5.New()
+				h.Write(b[:4])
+				h.Write(make([]byte, 16))
+				h.Write(b[20:])
+				h.Write(sec)
+				copy(b[4:20], h.Sum(nil))
+				addReq(b, sec, "isreq-other-code-digest")
 			}
 
 			// a reply
@@ -185,7 +195,7 @@ func init() {
 		}
 		c.Trivial("encode-unknown", "isreq-other-code")
 		c.Flush()
-		c.RequireTags("encode-verbatim", "encode-zero", "encode-reply", "encode-unknown", "isreq-authentic-1", "isreq-authentic-4", "isreq-authentic-40", "isreq-authentic-43", "isreq-authentic-12",
+		c.RequireTags("encode-verbatim", "encode-zero", "encode-reply", "encode-unknown", "isreq-authentic-1", "isreq-authentic-4", "isreq-authentic-40", "isreq-authentic-43", "isreq-authentic-12", "isreq-other-code-digest",
 			"isreq-hdr-flip", "isreq-body-flip", "isreq-empty-secret", "isresp-authentic", "isresp-hdr-flip", "isresp-body-flip", "isresp-truncated", "isresp-extended", "isresp-empty-secret", "isresp-wrong-secret", "isresp-other-request", "new", "response")
 	}
 }
